@@ -605,6 +605,9 @@ func propC17(c *Ctx) {
 		digestParamRule(c, "C17.R1")
 	})
 
+	// the verifier hands the derivation functions the claim's fields verbatim
+	c.Rule("C17.R5", func() { verbatimLeaf(c, "C17.R5") })
+
 	c.Rule("C17.R2", func() {
 		fn := c.Func(hostTypes, "GenerateNodeHash")
 		o := c.Ob("C17.R2", "GenerateNodeHash: compare<0 -> sha3(a‖b); compare>=0 -> sha3(b‖a); outcomes exhaustive")
